@@ -12,6 +12,45 @@ NOTE = ("Trusted base: clang 14 front end (parse, Sema, template instantiation),
         "every source file). Resource exhaustion (bad_alloc) is out of scope.")
 
 CLAIMED = {
+    "C01": dict(
+        text=("Decides four clauses of 'parsing is total and safe' for every input at once: (1) every successful exit of the parse "
+              "entry passes the exhausted-input test whose failing arm throws - unparsed text is never dropped silently; (2) "
+              "every recursion cycle of the parser's call graph contains a function that constructs the Depth_Counter before "
+              "any call, the counter throws eval_error beyond the limit and decrements on exit - nesting depth is an error, "
+              "not a native stack overflow; (3) cursor discipline: the raw buffer pointers are private to Position and "
+              "dereferenced only under the end test, and an abstract interpretation of all 75 parser functions (lower bounds on "
+              "characters consumed per cursor and saved position, computed callee summaries incl. symbol lengths, tracked "
+              "boolean results, inlined lambdas) discharges every retreat (--, -=, - n), every Position::str range and the "
+              "inductive invariant that no function ends before where it started - the parser never reads before or past "
+              "the buffer; (4) bottom-up exception flow over the 430 functions on the parse path: only eval_error can leave "
+              "parse(), nothing can leave a destructor or noexcept function of the parser. Not decided: termination of the "
+              "lexer/parser loops; that the tree accounts for each byte beyond (1); the optimizer's no-throw (C02)."),
+        technique="must-pass-through + recursion-cycle analysis + abstract interpretation (cursor lower-bound domain) + interprocedural exception flow",
+        ref="DESIGN.md section 4 C01"),
+    "C04": dict(
+        text=("Decides that a lookup result is a function of the looked-up name on every path: each return of get_object / "
+              "get_function / get_function_object(_int) / QuickFlatMap::find is control- or data-dependent on a comparison "
+              "with the name (following local initialisers and lambda captures); positions taken from a per-node cache index a "
+              "scope stack or scope only under a size comparison; the hinted find validates size and key; and the global/"
+              "function lookup must be dominated by the scan of the local scope stack - the last obligation fails on the "
+              "current tree and is listed as a known finding with its replay (a node cached as 'not a local' ignores a local "
+              "introduced later by eval()). Not decided: full equivalence with caching disabled on generated programs."),
+        technique="control/data-dependence rules on the structured tree, bounds-dominance, dominance of the scope scan",
+        ref="DESIGN.md section 4 C04"),
+    "C06": dict(
+        text=("Decides that the trusted kernel through which every argument and result passes is type-checked and cannot be "
+              "bypassed, over ~400 instantiations of the call kernel and ~230 of the cast kernel: argument k of every wrapped "
+              "callable is boxed_cast<Param_k>(params[k], &conversions); compare_types_cast probes exactly the parameter "
+              "types; do_call is reachable only through operator() whose condition is exactly 'variadic or arity equal'; each "
+              "Cast_Helper_Inner form derives mutable results from verify_type(typeid(Result), get_ptr()) and const results from "
+              "get_const_ptr(), smart-pointer results from Any::cast of the exact type; Any::cast and the base/derived casters "
+              "test the stored/source type first; eval<T>, boxed_cast<T> and std::function callers return only a checked "
+              "cast of the script value; dispatch calls the selected overload as the operand of return inside "
+              "try{bad_boxed_cast, arity_error, guard_error} and raises dispatch_error when nothing matched. Not decided: "
+              "overload ranking among several viable candidates; a user function that itself throws bad_boxed_cast makes "
+              "dispatch try the next overload (noted in DESIGN.md)."),
+        technique="per-instantiation structural rules over the call/cast kernels (template arguments compared with signature types), who-may-call",
+        ref="DESIGN.md section 4 C06"),
     "C05": dict(
         text=("Decides statically, for all 121 instantiated (lhs,rhs) type pairs of the arithmetic kernel plus the dependent "
               "template pattern: every integer / % /= %= is dominated by a zero-divisor guard and (signed) by an overflow "
@@ -59,6 +98,20 @@ CLAIMED = {
               "of sequences of create/eval/destroy (follows from (1)+(2) and C++ object lifetime)."),
         technique="static-storage inventory over the resolved program (all instantiations) + keyed-storage typestate rule",
         ref="DESIGN.md section 4 C14"),
+    "C16": dict(
+        text=("Decides: (1) word literals and reserved words are recognised by exact spelling - every use of utility::hash on "
+              "run-time text is inventoried, the reserved-word lookup compares strings, the word-literal switch receives the "
+              "text's hash only after an exact match against a table that contains every case label; (2) the escape switch of "
+              "the literal decoder, extracted as a table, equals the C++ simple escapes plus `$`, unknown escapes throw, octal "
+              "escapes end after 3 digits, hex after 2*sizeof(char); (3) a typestate analysis shows every Char_Parser object "
+              "is finished explicitly after its last parse() on every normal path (the destructor, which swallows eval_error, "
+              "is never the one to complete an escape) and no other handler on the parse path swallows eval_error; (4) the "
+              "if-ladder of buildInt, extracted as boolean formulas over its flags and range tests, yields the C++ "
+              "literal type on all 48 well-formed (suffix, base, magnitude-class) cases; float suffixes select float/long "
+              "double/double; Num() maps 0x/0b/leading 0 to bases 16/2/8. Not decided: float accuracy in ulps, the digit "
+              "arithmetic of std::stoll/parse_num, UTF-8 encoding arithmetic."),
+        technique="hash-use inventory + guard rule, table extraction, typestate by abstract interpretation, symbolic evaluation of the typing ladder on all abstract cases",
+        ref="DESIGN.md section 4 C16"),
     "C18": dict(
         text=("Decides the robustness clause and the structural half of the round-trip clause: (1) every JSON parser function "
               "consumes the input text only through at()/substr()/size() or forwards it to another parser function - every "
